@@ -54,7 +54,7 @@ func codecs() []*codec {
 			parse: strz.Utf16Parse, parseSS: strz.Utf16ParseToString[string], parseSB: strz.Utf16ParseToString[[]byte],
 			menu: []string{"a", lu("0041"), lu("0000"), lu("FFFF"), lu("4E16"), lu("D800"), lu("DC00"), lu("DBFF"), lu("DFFF"),
 				`\`, lu(""), lu("00"), lu("004"), lu("G041"), lu("00G1"), lu("004G"), lu("adef"), `\x41`, "0", "\xff"},
-			raws: []rawFam{{alpha: "\\" + "u07F8Dg"}},
+			raws: []rawFam{{alpha: "\\" + "u07F8Dg"}, {alpha: "\\" + "uD8C"}},
 		},
 	}
 	return cs
@@ -89,9 +89,11 @@ type harness struct {
 // worker is the per-shard scratch state; seq is odd while a golib call is in flight.
 type worker struct {
 	seq      atomic.Uint64
-	cur      [128]byte
+	cur      [256]byte
 	curLen   int
-	curWhat  string
+	curCodec *codec
+	curParse bool
+	finished atomic.Bool
 	ev, nt   int64
 	dst      []byte
 	esc, dec []byte
@@ -111,8 +113,8 @@ func (h *harness) newWorker() *worker {
 	return w
 }
 
-func (w *worker) enter(what string, in []byte) {
-	w.curWhat = what
+func (w *worker) enter(c *codec, parse bool, in []byte) {
+	w.curCodec, w.curParse = c, parse
 	w.curLen = copy(w.cur[:], in)
 	w.seq.Add(1)
 }
@@ -185,6 +187,7 @@ func (h *harness) shards(f *fam, n int, fn func(i int, w *worker)) {
 		}
 		w := h.newWorker()
 		fn(i, w)
+		w.finished.Store(true)
 		atomic.AddInt64(&f.cases, w.ev)
 		atomic.AddInt64(&f.nontrivial, w.nt)
 		h.r.Eval(w.ev)
@@ -192,40 +195,91 @@ func (h *harness) shards(f *fam, n int, fn func(i int, w *worker)) {
 	})
 }
 
-// watchdog turns a golib call that does not return into a violation instead of a hung check:
-// a worker whose in-call marker does not move for hangAfter is reported and the run is finished.
-const hangAfter = 30 * time.Second
+// watchdog turns a golib call that does not return into a violation instead of a hung check.
+// No wall-clock threshold decides: a worker whose in-call marker is unchanged over hangTicks
+// consecutive watchdog rounds is only a suspect (the machine may be overloaded or paused); the
+// suspect input is then run again on a fresh goroutine and only if that second, independent run
+// does not come back within hangTicks further rounds is non-termination reported (the functions
+// are pure and deterministic, so a real endless loop always reproduces).
+const hangTicks = 20
+
+func (h *harness) rerunHangs(c *codec, parse bool, in []byte) bool {
+	done := make(chan struct{})
+	go func() {
+		defer close(done)
+		common.Catch(func() {
+			if parse {
+				dst := make([]byte, len(in)+slack)
+				c.parse(dst, in)
+				c.parseSS(string(in))
+				c.parseSB(in)
+			} else {
+				c.formatS(string(in))
+				c.formatB(in)
+				c.formatSS(string(in))
+				c.formatSB(in)
+			}
+		})
+	}()
+	for t := 0; t < hangTicks; t++ {
+		select {
+		case <-done:
+			return false
+		case <-time.After(2 * time.Second):
+		}
+	}
+	return true
+}
 
 func (h *harness) watchdog(rule string) {
 	type seen struct {
 		seq   uint64
-		since time.Time
+		ticks int
 	}
 	last := map[*worker]seen{}
 	for {
 		time.Sleep(2 * time.Second)
 		h.wmu.Lock()
-		ws := append([]*worker(nil), h.workers...)
-		h.wmu.Unlock()
-		now := time.Now()
-		for _, w := range ws {
-			s := w.seq.Load()
-			p, ok := last[w]
-			if !ok || p.seq != s {
-				last[w] = seen{s, now}
+		live := h.workers[:0]
+		for _, w := range h.workers {
+			if w.finished.Load() {
+				delete(last, w)
 				continue
 			}
-			if s%2 == 1 && now.Sub(p.since) > hangAfter {
-				in := string(w.cur[:w.curLen])
-				what := w.curWhat
-				h.viol(what+"|no-termination|any", in, func() (string, any, string) {
-					return fmt.Sprintf("%s did not return within %v on input %q", what, hangAfter, in),
-						map[string]any{"input": fmt.Sprintf("%q", in)}, ""
-				})
-				h.r.Incomplete("a call did not terminate; enumeration abandoned")
-				h.flush()
-				h.r.Finish(rule)
+			live = append(live, w)
+		}
+		h.workers = live
+		ws := append([]*worker(nil), live...)
+		h.wmu.Unlock()
+		for _, w := range ws {
+			s := w.seq.Load()
+			p := last[w]
+			if p.seq != s || s%2 == 0 {
+				last[w] = seen{s, 0}
+				continue
 			}
+			p.ticks++
+			last[w] = p
+			if p.ticks < hangTicks {
+				continue
+			}
+			c, parse := w.curCodec, w.curParse
+			in := append([]byte(nil), w.cur[:w.curLen]...)
+			last[w] = seen{s, 0}
+			if w.seq.Load() != s || c == nil || !h.rerunHangs(c, parse, in) {
+				continue // it was the machine, not golib
+			}
+			what := c.name + "Format"
+			if parse {
+				what = c.name + "Parse"
+			}
+			h.viol(what+"|no-termination|any", string(in), func() (string, any, string) {
+				return fmt.Sprintf("%s does not return on input %q (in flight for %d watchdog rounds, and again when re-run on its own)", what, in, hangTicks),
+					map[string]any{"codec": c.name, "input": fmt.Sprintf("%q", in)}, ""
+			})
+			h.r.Incomplete("a call did not terminate; enumeration abandoned")
+			h.flush()
+			h.r.Finish(rule)
 		}
 	}
 }
@@ -258,7 +312,7 @@ func main() {
 		"small-scope: round trips on all byte strings up to the stated length plus structured longer strings; parsers on token sequences / raw strings up to the stated lengths",
 		"exact decoding is demanded only for escapes in the shape Format emits (upper-case digits, in-range values, scalar values for \\U, paired surrogates for \\u) that are separated from each other by non-empty backslash-free text, and for pure Format output; every other input gets the safety clauses only (no panic, termination, len(out) <= len(in), forms agree)",
 		"each invalid byte = each byte for which utf8.DecodeRune reports (RuneError, 1)",
-		fmt.Sprintf("termination is observed with a watchdog (a call in flight for more than %v is reported); Parse(dst, src) is called with len(dst) = len(src)+%d guard bytes and non-overlapping buffers", hangAfter, slack))
+		fmt.Sprintf("termination is observed with a watchdog: a call seen in flight over %d consecutive 2-second rounds is re-run on its own and reported only if the re-run does not return either; Parse(dst, src) is called with len(dst) = len(src)+%d guard bytes and non-overlapping buffers", hangTicks, slack))
 	h.flush()
 	r.Finish(rule)
 }
